@@ -100,6 +100,31 @@ Theorem C02_not_stuck : forall k start st, reachable k start st -> (n2 st < nw s
 Proof. exact ring_not_stuck. Qed.
 Print Assumptions C02_not_stuck.
 
+(** D15.  In the code as found NextWriteCmd locks the slot mutex unconditionally: the system without the
+    label [WNextBusy].  There a state is reachable in which the writer is idle, has dequeued everything up to
+    position 2, and its next NextWriteCmd (position 3, slot 1) is disabled because the reader holds slot 1 while
+    it waits for the rest of position 1's replies - the writer blocks with whatever it has buffered (pipe.go
+    flushes only when NextWriteCmd returns nothing).  In the repaired code the call never blocks. *)
+Definition d15_schedule : list label :=
+  [PutTicket; PutLock 1 1; WNext; RNext; PutTicket; PutLock 2 0; WNext].
+
+Theorem C02_next_write_blocks_orig :
+  exists st, run 1 d15_schedule (init 0) = Some st /\ forallb (fun l => match l with WNextBusy => false | _ => true end) d15_schedule = true /\
+    wpc st = WIdle /\ n1 st = 2 /\ rpc st = RHold 1 (Some 1) /\ lstep 1 st WNext = None.
+Proof. eexists. split; [vm_compute; reflexivity|]. repeat split. Qed.
+Print Assumptions C02_next_write_blocks_orig.
+
+Theorem C02_next_write_never_blocks : forall k st, wpc st = WIdle ->
+  lstep k st WNextBusy = Some st /\
+  (rlock (slots st (idx k (u32 (read1 st + 1)))) = false -> exists st', lstep k st WNext = Some st').
+Proof.
+  intros k st Hw. split.
+  - cbn [lstep]. rewrite Hw. reflexivity.
+  - intro Hr. cbn [lstep]. rewrite Hw, Hr.
+    destruct (writer_take st (idx k (u32 (read1 st + 1))) (u32 (read1 st + 1))); eexists; reflexivity.
+Qed.
+Print Assumptions C02_next_write_never_blocks.
+
 (** AG EF: from every reachable state there is a finite continuation without new tickets after which every
     ticket holder's command has been written and completed and the reader is idle.  (Existence of a
     schedule; fair termination under the Go scheduler is not claimed.) *)
